@@ -11,6 +11,8 @@ pub mod c07;
 pub mod c08;
 pub mod c09;
 pub mod c10;
+pub mod c11;
+pub mod c12;
 
 pub fn run(prop: &str, opts: &Opts) -> bool {
     match prop {
@@ -25,6 +27,8 @@ pub fn run(prop: &str, opts: &Opts) -> bool {
         "c08" => c08::run(opts),
         "c09" => c09::run(opts),
         "c10" => c10::run(opts),
+        "c11" => c11::run(opts),
+        "c12" => c12::run(opts),
         _ => return false,
     }
     true
